@@ -915,6 +915,38 @@ def _run_beh_sync(sc: Scenario, tok: str, args: Any, kwargs: Any, depvals: Any, 
     return _outcome(sc, d, tok, beh, depvals, echo)
 
 
+class MonExecutor(ThreadPoolExecutor):
+    """The worker's thread pool.  Joining it (shutdown(wait=True)) from a helper thread blocks that thread until the
+    sync task functions have ended - for parked functions that takes virtual time, so the waiting thread is accounted
+    like a parked one (the virtual clock keeps running) and the join is recorded."""
+
+    sc: Any = None
+
+    def shutdown(self, wait: bool = True, *, cancel_futures: bool = False) -> None:  # noqa: D102
+        sc = self.sc
+        loop = sc.trace.loop if sc is not None else None
+        off_loop = loop is not None and hasattr(loop, "_v_inflight") and threading.current_thread() is not threading.main_thread()
+        if not (wait and off_loop):
+            return super().shutdown(wait=wait, cancel_futures=cancel_futures)
+
+        def _dec() -> None:
+            loop._v_inflight -= 1
+            sc.trace.add("executor_join_begin")
+
+        def _inc() -> None:
+            loop._v_inflight += 1
+            sc.trace.add("executor_join_end")
+
+        loop.call_soon_threadsafe(_dec)
+        try:
+            return super().shutdown(wait=True, cancel_futures=cancel_futures)
+        finally:
+            try:
+                loop.call_soon_threadsafe(_inc)
+            except RuntimeError:
+                pass  # the loop is gone
+
+
 # ------------------------------------------------------------------------------------
 # message construction
 
@@ -990,7 +1022,8 @@ def run_worker(spec: Dict[str, Any], real: bool = False) -> RunResult:
     rr = RunResult()
     rr.sc = sc
     cfg = spec.get("cfg", {})
-    executor = ThreadPoolExecutor(max_workers=cfg.get("threads", 4))
+    executor = MonExecutor(max_workers=cfg.get("threads", 4))
+    executor.sc = sc
 
     async def main(loop: Any) -> None:
         T0 = loop.time()
@@ -1031,7 +1064,11 @@ def run_worker(spec: Dict[str, Any], real: bool = False) -> RunResult:
             from taskiq.middlewares.retry_middleware import SimpleRetryMiddleware
 
             r = spec["retry"]
-            rm = SimpleRetryMiddleware(
+            rcls: Any = SimpleRetryMiddleware
+            if r.get("subclass"):
+                # an application's own retry middleware: a subclass that customises nothing but its construction
+                rcls = type("AppRetryMiddleware", (SimpleRetryMiddleware,), {"tag": "app"})
+            rm = rcls(
                 default_retry_count=r.get("default_count", 3),
                 default_retry_label=r.get("default_label", False),
                 no_result_on_retry=r.get("no_result_on_retry", True),
